@@ -176,8 +176,8 @@ class HLHandler(AsyncStreamRequestHandler):
 
     def on_connection(self, client: Any) -> Any:
         self.body.rec.add("conn")
-        if self.body.shape.onconn == "gen":
-            return self.body.gen(client, "oc", 1)
+        if self.body.shape.onconn in ("gen", "gen2"):
+            return self.body.gen(client, "oc", 2 if self.body.shape.onconn == "gen2" else 1)  # gen2: two handshake requests, each with its own yielded timeout
         return self._noop()
 
     async def _noop(self) -> None:
@@ -433,8 +433,8 @@ def reference(cfg: dict, obs: dict) -> tuple[list[tuple], bytes, dict]:
         notes["ended"] = run_gen("h", shape.k)
         return exp, bytes(tx), notes
     exp.append(("conn",))
-    if shape.onconn == "gen":
-        r = run_gen("oc", 1)
+    if shape.onconn in ("gen", "gen2"):
+        r = run_gen("oc", 2 if shape.onconn == "gen2" else 1)
         if r in ("raised", "exit"):
             notes["ended"] = "oc-" + r
             return exp, bytes(tx), notes  # documented: on_disconnection is not called
@@ -602,10 +602,12 @@ PLAN: dict[str, dict[str, list[dict]]] = {
     "time": {
         "quick": [dict(maxn=2, chunks=(1, 2), midcuts=True, nocatch=True,
                        shapes=mk_shapes((1, 0), ((TAU,), (None, TAU), (0, TAU)), ("coro", "gen"), (True,), (0,), (0,))
-                       + mk_shapes((2,), ((TAU,),), ("coro",), (True,), (0, 2), (0,)))],
+                       + mk_shapes((2,), ((TAU,),), ("coro",), (True,), (0, 2), (0,))
+                       + mk_shapes((1,), ((TAU, None), (None, TAU)), ("gen2",), (True,), (0,), (0,)))],
         "thorough": [dict(maxn=3, chunks=(1, 2, 3), midcuts=True, nocatch=True,
                           shapes=mk_shapes((1, 0), ((TAU,), (None, TAU), (TAU, None), (0, TAU)), ("coro", "gen"), (True,), (0,), (0,))
-                          + mk_shapes((2,), ((TAU,), (None, TAU)), ("coro",), (True,), (0, 2), (0,)))],
+                          + mk_shapes((2,), ((TAU,), (None, TAU)), ("coro",), (True,), (0, 2), (0,))
+                          + mk_shapes((1, 0), ((TAU, None), (None, TAU), (TAU,)), ("gen2",), (True,), (0,), (0,)))],
     },
 }
 NOCATCH = {"place": {"k": 0, "taus": (None,), "onconn": "coro", "catch": False, "aclose_at": 0, "work": 1},
@@ -623,7 +625,7 @@ def shapes_for(plan: dict, fam: str, frames: str, api: str) -> list[dict]:
             continue  # identical behaviour without a malformed frame
         if sh["aclose_at"] > len(frames):
             continue  # never reached
-        if api == "ll" and (sh["onconn"] == "gen" or not sh["catch"]):
+        if api == "ll" and (sh["onconn"] != "coro" or not sh["catch"]):
             continue  # low-level API: no on_connection hook; an exception leaving the callback is the caller's business (C17)
         out.append(sh)
     return out
